@@ -47,6 +47,7 @@ type Op struct {
 	D   *Val      `json:"d,omitempty"`
 	KVs []KV      `json:"kvs"`
 	Kss [][]int64 `json:"kss"`
+	Alt bool      `json:"alt,omitempty"` // another spelling of the same operation (tuple instead of list, dict instead of pairs)
 }
 
 type Probe struct {
@@ -153,6 +154,9 @@ func spell(in *Instance, op Op) (name string, a, b starlark.Value, isMethod bool
 	case "LClear", "DClear", "SClear":
 		return "clear", starlark.Tuple{}, nil, true
 	case "LExtend":
+		if op.Alt {
+			return "extend", starlark.Tuple{tupleOf(list(op.Vs))}, nil, true
+		}
 		return "extend", starlark.Tuple{list(op.Vs)}, nil, true
 	case "LInsert":
 		return "insert", starlark.Tuple{starlark.MakeInt64(*op.I), in.Value(*op.V)}, nil, true
@@ -166,6 +170,9 @@ func spell(in *Instance, op Op) (name string, a, b starlark.Value, isMethod bool
 	case "LSetIndex":
 		return "setindex", starlark.MakeInt64(*op.I), in.Value(*op.V), false
 	case "LInplaceAdd":
+		if op.Alt {
+			return "iadd", tupleOf(list(op.Vs)), nil, false
+		}
 		return "iadd", list(op.Vs), nil, false
 	case "DPop":
 		if op.D == nil {
@@ -179,6 +186,13 @@ func spell(in *Instance, op Op) (name string, a, b starlark.Value, isMethod bool
 	case "DUpdate":
 		if len(op.KVs) == 0 && op.K != nil { // spelled d.update() with no argument
 			return "update", starlark.Tuple{}, nil, true
+		}
+		if op.Alt {
+			dd := starlark.NewDict(len(op.KVs))
+			for _, kv := range op.KVs {
+				dd.SetKey(starlark.MakeInt64(kv.K), in.Value(kv.V))
+			}
+			return "update", starlark.Tuple{dd}, nil, true
 		}
 		return "update", starlark.Tuple{kvlist(op.KVs)}, nil, true
 	case "DSetKey":
@@ -214,6 +228,14 @@ func spell(in *Instance, op Op) (name string, a, b starlark.Value, isMethod bool
 		return "setfield", in.Value(*op.V), nil, false
 	}
 	return "", nil, nil, false
+}
+
+func tupleOf(l *starlark.List) starlark.Tuple {
+	t := starlark.Tuple{}
+	for i := 0; i < l.Len(); i++ {
+		t = append(t, l.Index(i))
+	}
+	return t
 }
 
 func isGoOp(n string) bool { return strings.HasPrefix(n, "Go") }
@@ -606,6 +628,9 @@ func universeSnapshot() map[string]starlark.Value {
 func runGraph(seed uint64, i int, maxProbes int) GraphOut {
 	r := hx.NewRand(seed*1000003 + uint64(i))
 	d := graphs.Gen(r)
+	if i == 0 {
+		d = graphs.Corner() // never-written and large containers, one value of each kind
+	}
 	src := d.Source()
 	out := GraphOut{Kind: "graph", I: i, Desc: d, Src: src, EnvOK: true}
 	hx.Emit(map[string]any{"kind": "begin", "i": i, "src": src})
@@ -732,6 +757,7 @@ func runGraph(seed uint64, i int, maxProbes int) GraphOut {
 			continue
 		}
 		for _, op := range opsFor(d, nd, r) {
+			op.Alt = r.Intn(3) == 0
 			jobs = append(jobs, job{nd.ID, op})
 		}
 	}
